@@ -1,6 +1,7 @@
 import GeffProofs.BaseWriteGen
 open Geff.Np Geff.Store Geff.WR Geff.PyDoWrite Gen.Paths GeffProofs.BaseWriteGen
 set_option pp.proofs false
+set_option pp.explicit false
 set_option linter.unusedSimpArgs false
 
 theorem hasGeff_ensureGroup (s : St) : hasGeff (ensureGroup s []) = hasGeff s := by
@@ -91,10 +92,14 @@ theorem x (validate : St → Outcome Unit) (s0 : St) (r : StoreRef) (g : InMem) 
             cases nps0 with
             | none => rfl
             | some ps0 =>
-              simp only [axSpec, axStep, dictContains, dictSetItem, axisName, npEmptyZero, emptyF64, Option.map_some]
-              simp only [dictSet, pure, Except.pure]
-              generalize (ps0.any fun kv => decide (kv.fst = ax)) = b
-              cases b <;> simp
+              have hdc : dictContains ps0 ax = ps0.any (fun kv => kv.1 = ax) := rfl
+              simp only [axSpec, axStep, hdc, dictSetItem, axisName, npEmptyZero, emptyF64, Option.map_some, dictSet, pure, Except.pure]
+              cases hb : (ps0.any fun kv => kv.1 = ax) <;> simp_all
+              refine ite_eq_right_iff.mpr (fun hc => ?_)
+              exfalso
+              rw [List.any_eq_true] at hc
+              obtain ⟨kv, hm, hk⟩ := hc
+              exact hb kv.1 kv.2 hm (by simpa using hk)
           simp only []
           generalize g.nodeProps.map (fun ps => names.foldl axStep ps) = nps'
           generalize g.edgeProps = eps'
